@@ -215,8 +215,13 @@ void AsyncPipe::Impl::cleanup()
         return;
 
     CPP_TBOX_VERIF_POINT("ap.c.begin", 0, 0);
-    stop_signal_ = true;
-    CPP_TBOX_VERIF_POINT("ap.c.stop", 0, 0);
+    {
+        //! 必须在持有 full_buffers_mutex_ 的情况下置位：后台线程是在持有该锁时检查 stop_signal_ 然后进入等待的，
+        //! 不加锁会产生数据竞争，并可能丢失下面的 notify_all()，使 cleanup() 多等一个 interval 才能返回
+        std::lock_guard<std::mutex> lg(full_buffers_mutex_);
+        stop_signal_ = true;
+        CPP_TBOX_VERIF_POINT("ap.c.stop", 0, 0);
+    }
     full_buffers_cv_.notify_all();
     CPP_TBOX_VERIF_POINT("ap.c.notified", 0, 0);
     backend_thread_.join();
